@@ -144,6 +144,19 @@ def mid_term(mname, wname, spec, ob):
             f'{cs(visited)} {cs(seen)}')
 
 
+def ct_term(mname, wname, tname, spec, ob):
+    """wct case of a connected molecule: the dictionary __ct_map returned (adjacency['cache'] at the return of _smiles), its
+    pair-keyed entries (the marks) and its atom-keyed entries (the bookkeeping), each in insertion order; None when the writer
+    never asked for it"""
+    cap = ob.get('mid')
+    if not cap or 'visited' not in cap or '.' in ob['strings'] or 'cache' not in cap['visited']:
+        return None
+    cache = cap['visited']['cache']
+    pm = ','.join(f'{k[0]}.{k[1]}:{int(v)}' for k, v in cache.items() if isinstance(k, tuple))
+    im = ','.join(f'{k}:{v}' for k, v in cache.items() if not isinstance(k, tuple))
+    return f'wct {mname} {wname} {cs(spec)} {tname} {lst(ob["order"], zraw)} {cs(pm)} {cs(im)}'
+
+
 def observe(m, spec, seed):
     """run the real writer: returns dict(strings, order, text, w) ; the three calls see the same random numbers"""
     kw = kwargs_of(spec)
@@ -167,6 +180,13 @@ def observe(m, spec, seed):
             joined, order2 = m.__format__(spec, _return_order=True)
         else:
             joined, order2 = ''.join(strings), list(m.smiles_atoms_order)
+            # the other first accesses on fresh copies: the written order asked for first / __format__('', _return_order=True) first;
+            # whatever is cached then must be the text and order of this run
+            c1, c2 = m.copy(), m.copy()
+            o1 = list(c1.smiles_atoms_order)
+            j2, o2 = c2.__format__('', _return_order=True)
+            if (str(c1), o1, str(c2), list(o2), list(c2.smiles_atoms_order), j2) != (text, order2, text, order2, order2, joined):
+                order2 = ['entry points disagree after another first access', str(c1), o1, str(c2), list(o2), j2]
     return {'strings': list(strings), 'order': list(order), 'text': text, 'w': w, 'joined': joined, 'order2': list(order2), 'mid': mid}
 
 
@@ -253,6 +273,31 @@ Definition wmid (g : mol) (w : list (Z * Z)) (spec : string) (order : list Z)
                          tokens &&
               String.eqb (show_zl (sort_by (fun k : Z => [k]) (map snd cst))) casted && String.eqb (show_adj vis) visited &&
               String.eqb (show_pairs (sort_by (fun kv : Z * Z => [fst kv]) (tr_seen t))) seen
+          | Err _ => false
+          end
+      | Err _ => false
+      end
+  | Err _ => false
+  end.
+(* the dictionary returned by __ct_map for the component (round 4): marks and bookkeeping entries in insertion order *)
+Definition show_pm (l : list ((Z * Z) * bool)) : string :=
+  String.concat "," (map (fun e : (Z * Z) * bool => scat [str_Z (fst (fst e)); "."%string; str_Z (snd (fst e)); ":"%string;
+                                                          if snd e then "1"%string else "0"%string]) l).
+Definition wct (g : mol) (w : list (Z * Z)) (spec : string) (tabs : stabs) (order : list Z) (pm im : string) : bool :=
+  let o := opts_of_spec spec in
+  match traverse g (wfun w) (tbfun order) o (ids g) (init_state g) with
+  | Ok t =>
+      match flatten g t with
+      | Ok s =>
+          let d := tr_dfs t in
+          let ro := ring_positions (ds_tokens d) s 0 in
+          match number_atoms (ds_tokens d) ro ro [] (zrange heap_lo heap_hi) with
+          | Ok (cst, _) =>
+              let '(tk, vis) := order_neighbours s cst (ds_edges d) (ds_tokens d) (ds_visited d) in
+              match ct_map g tabs vis, fold_left (ct_outer g tabs) vis (Ok (mkCt [] [] [] [])) with
+              | Ok cm, Ok st => String.eqb (show_pm cm) pm && String.eqb (show_pairs (ct_im st)) im
+              | _, _ => false
+              end
           | Err _ => false
           end
       | Err _ => false
@@ -358,6 +403,9 @@ SPECIAL = [
     '[CH2]CCCCCCCCCCC[CH2]', '[O]CCCCCCCCCCCC[O]', 'C[CH]CCCCCCCCCC[CH]C', '[CH2]c1ccc(cc1)CCCCCCC[CH2]', 'CCCCCCCCCC[CH]CC[CH]C',
     '[CH2]CCCCC[CH]CCCCCC[CH2]', 'C[N]CCCCCCCCCCCC[O]', '[CH2]CCCCCCCCCCCCCCCCCCCCCC[CH2]', 'CC(C)(C)c1cc([O])c(cc1[O])C(C)(C)CCCCCC[CH2]',
     '[CH2]CCCCCCCCCC.[CH2]CCCCCCCCCCCC[O]',
+    # radicals whose radical state the reader cannot re-derive from the valence: only the CXSMILES block carries it
+    'O=[N]=O |^1:1|', 'O=[Cl]=O |^1:1|', '[H] |^1:0|', 'c1cc[n]c1 |^1:3|', 'C[Si](C)C |^1:1|', 'C[S](=O)=O |^1:1|', '[Na] |^1:0|',
+    'Cl[Cu]Cl |^1:1|', 'C[Hg] |^1:1|', 'C[Sn](C)C |^1:1|',
     # special (coordinate) bonds
     '[C]~[Fe]', 'C~[Fe]', 'N~[Pt](~N)(Cl)Cl', '[Fe]~1~C~C~1',
     # aromatic: pyrrole-type N, B, P, heteroatoms, charged, fused
@@ -475,7 +523,7 @@ def pool(ck):
     from chython import smiles
     rng = random.Random(f'{ck.seed}:c02pool')
     quick = ck.tier == 'quick'
-    mols = special_molecules() + api_molecules() + history_molecules()
+    mols = special_molecules() + api_molecules() + history_molecules() + macro_pool(ck)
     from rdkit import RDLogger
     RDLogger.DisableLog('rdApp.*')
     forced = []
@@ -540,6 +588,7 @@ def corr_writer(ck, mols):
     api_ok = True
     n_cases = 0
     n_mid = 0
+    n_ct = 0
 
     def close():
         nonlocal defs, cases, meta, size
@@ -587,6 +636,13 @@ def corr_writer(ck, mols):
                     meta.append((name, m, f'intermediate states, spec={spec}', ob['text']))
                     ck.count('writer:intermediate-states')
                     n_mid += 1
+            if 'ct-stereo' in mol_features(m) and '!s' not in spec:
+                mt3 = ct_term(f'm{i}', wdone[wkey], f't{i}', spec, ob)
+                if mt3 is not None:
+                    local.append(mt3)
+                    meta.append((name, m, f'dictionary returned by __ct_map, spec={spec}', ob['text']))
+                    ck.count('writer:ct_map-dictionaries')
+                    n_ct += 1
             n_cases += 1
             feats = mol_features(m)
             ck.case(('writer', name, spec, ob['text']), nontrivial=len(m) > 2)
@@ -646,11 +702,13 @@ def corr_writer(ck, mols):
     bad = [metas[k][i] for k, i in failing]
     ck.extra['writer_correspondence_cases'] = sum(len(c) for _, c in shards)
     ck.extra['writer_intermediate_state_cases'] = n_mid
+    ck.extra['writer_ct_map_dictionary_cases'] = n_ct
     ck.oblige('correspondence: Smiles._smiles / format(mol, spec) / str(mol) / smiles_atoms_order == Writer.smiles_tokens '
               '(real weights, observed order as tie-break); every output accepted by the token-stream checker (stream_ok), '
               'closure lists of every 4th case satisfy wf_events; for every 5th case of a connected molecule also the local variables '
               'of _smiles at its return (smiles, edges, tokens, casted_cycles, visited, seen) == traverse / flatten / number_atoms / '
-              'order_neighbours of the model', ok and not bad and api_ok, 'correspondence',
+              'order_neighbours of the model; for every case of a connected molecule with cis/trans labels the dictionary __ct_map returned '
+              '(marks and bookkeeping entries, insertion order) == ct_map / fold of ct_outer of the model', ok and not bad and api_ok, 'correspondence',
               log or '; '.join(f'{n} spec={s!r} text={t!r}' for n, _, s, t in bad[:8]))
     if shards:
         ck.sample({'writer_case': shards[0][1][0][:600]})
@@ -979,6 +1037,27 @@ def stereo_defect_class(m, m2, f, text, order):
     for e in delta:
         if e[0] == 'ct' and frozenset(inv.get(x) for x in e[1]) in closures:
             keys.append('cis-trans-on-ring-closure-double-bond')
+    # the same mechanism with another surface: the MIDDLE double bond of a conjugated stereo triene (labelled stereo double bonds on
+    # both of its sides) one of whose two linking single bonds is written as ring-closure bond: its two neighbours were entered
+    # independently, the marks of the middle bond come from both and are never reconciled
+    try:
+        single_closures = {frozenset((order[i], order[j])) for i, j, o in closure_pairs(text) if o == 1}
+        ctc = m._stereo_cis_trans_centers
+        for e in delta:
+            if e[0] != 'ct':
+                continue
+            ends = [inv.get(x) for x in e[1]]
+            if None in ends or len(ends) != 2:
+                continue
+            links = []
+            for x, other in ((ends[0], ends[1]), (ends[1], ends[0])):
+                ys = [y for y, bd in m._bonds[x].items() if y != other and int(bd) == 1 and y in ctc and
+                      m._bonds[ctc[y][0]][ctc[y][1]].stereo is not None]
+                links.append([frozenset((x, y)) for y in ys])
+            if links[0] and links[1] and any(l in single_closures for ls in links for l in ls):
+                keys.append('cis-trans-middle-double-bond-reached-from-both-sides')
+    except Exception:
+        pass
     return keys
 
 
@@ -1479,15 +1558,189 @@ def search_label_history(ck, mols, limit):
     return found
 
 
+# ---- macrocyclic conjugated polyenes (fifth wave): rings of 8..14 atoms with 2 or 3 conjugated stereo double bonds, optionally one
+# O / N somewhere in the saturated part, every E/Z isomer.  Whatever atom the writer starts from, some ring bond of the conjugated
+# system or next to it becomes the ring-closure bond: the single bond BETWEEN two stereo double bonds, a stereo double bond itself,
+# or a bond of the saturated part - the paths of __ct_map that open-chain polyenes and isolated ring double bonds never take.
+MACRO_SET = set()
+
+
+def macro_polyene_texts():
+    """input spellings with the ring closure in the saturated part (X1...../C=C/C=C\\1), grouped per skeleton"""
+    out = []
+    for n in range(8, 15):
+        for nd in (2, 3):
+            rest = n - 2 * nd
+            if rest < 2:
+                continue
+            for het in (None, 'O', 'N'):
+                for hp in ([None] if het is None else range(rest)):
+                    tail = ['C'] * rest
+                    if het:
+                        tail[hp] = het
+                    group = []
+                    for marks in itertools.product('/\\', repeat=nd):
+                        group.append(tail[0] + '1' + ''.join(tail[1:]) + '/C=C' + ''.join(mk + 'C=C' for mk in marks[:-1]) + marks[-1] + '1')
+                    out.append(group)
+    return out
+
+
+def macro_groups(ck):
+    """the skeleton groups of a run: every carbocyclic diene, a seed-dependent sample of the rest (all under --thorough)"""
+    groups = macro_polyene_texts()
+    if ck.tier != 'quick':
+        return groups
+    fixed = [g for g in groups if g[0].count('=') == 2 and 'O' not in g[0] and 'N' not in g[0]]
+    rest = [g for g in groups if g not in fixed]
+    return fixed + random.Random(f'{ck.seed}:c02macro').sample(rest, 14)
+
+
+def macro_pool(ck):
+    """members of the correspondence pool: one isomer of every group of the run (rotating through the isomers)"""
+    from chython import smiles
+    out = []
+    for i, g in enumerate(macro_groups(ck)):
+        for text in (g[i % len(g)], g[(i + 1) % len(g)]) if i % 3 == 0 else (g[i % len(g)],):
+            MACRO_SET.add(text)
+            try:
+                out.append((text, smiles(text)))
+            except Exception:
+                continue
+    return out
+
+
+def search_macro_polyenes(ck):
+    """every isomer, written canonically, in two styles and in random orders, must denote for RDKit the isomer RDKit reads from the
+    INPUT spelling (a reference that never passed through chython's writer), must read back equal along the written order, and two
+    isomers RDKit tells apart never share a canonical string"""
+    from chython import smiles
+    from rdkit import Chem, RDLogger
+    RDLogger.DisableLog('rdApp.*')
+    rng = random.Random(f'{ck.seed}:c02macro-search')
+    found = 0
+    for g in macro_groups(ck):
+        canon = {}
+        for text in g:
+            rd = Chem.MolFromSmiles(text)
+            try:
+                m = smiles(text)
+            except Exception:
+                continue
+            nd = text.count('=')
+            if rd is None or n_labels(m)[1] != nd or sum(1 for bd in rd.GetBonds() if bd.GetStereo() != Chem.BondStereo.STEREONONE) != nd:
+                ck.count('macro-polyenes:skipped (reader or RDKit does not label every double bond)')
+                continue
+            ref = (Chem.MolToSmiles(rd), Chem.MolToSmiles(rd, isomericSmiles=False), rd, text)
+            ck.count(f'macro-polyenes:isomers ring={sum(ch.isalpha() for ch in text)} double-bonds={nd}')
+            bad = 0
+            for spec in ('', rng.choice(['a', 'h', 'A', 'm'])):
+                bad += roundtrip(ck, text, m, spec, 0, ref)
+            for k in range(3):
+                if bad:
+                    break
+                bad += roundtrip(ck, text, m, 'r' + rng.choice(['', 'a']), f'{ck.seed}:macro:{text}:{k}', ref)
+            found += bad
+            try:
+                s = str(m)
+                if '\\1' in s or '/1' in s or '\\%' in s or '/%' in s:
+                    ck.count('macro-polyenes:canonical string with a direction mark on a ring-closure bond')
+                canon.setdefault(s, []).append((text, ref[0], bad))
+            except Exception:
+                pass
+        for s, members in canon.items():
+            if len({r for _, r, _ in members}) > 1 and not any(bd for *_, bd in members):
+                ck.counterexample(f'collision-stereo:{members[0][0]}', 'two stereoisomers RDKit tells apart receive the same canonical string',
+                                  {'isomers': [t for t, *_ in members]}, s, 'different strings', 'RDKit canonical isomeric SMILES of the input spellings',
+                                  replay_py='from chython import smiles\n' + '\n'.join(f'print(str(smiles({t!r})))' for t, *_ in members))
+                found += 1
+    return found
+
+
+# ---- access histories (fifth wave): the canonical string, its hash and the written order are cached by whichever entry point is used
+# first (str, hash, ==, smiles_atoms_order, __format__('', _return_order=True), get_fast_mapping); every first access must leave the
+# same values behind
+ACCESS = [
+    ('smiles_atoms_order', 'm.smiles_atoms_order', lambda c: tuple(c.smiles_atoms_order)),
+    ('format-return-order', "m.__format__('', _return_order=True)", lambda c: c.__format__('', _return_order=True)),
+    ('get_fast_mapping', 'm.get_fast_mapping(m.copy())', lambda c: c.get_fast_mapping(c.copy())),
+    ('hash', 'hash(m)', hash),
+    ('eq', 'm == m.copy()', lambda c: c == c.copy()),
+    ('str', 'str(m)', str),
+]
+
+
+def cx_block_expected(m, order):
+    """the CXSMILES radical block by its definition: zero-based written positions of the radical atoms; None without radicals"""
+    idx = [i for i, n in enumerate(order) if m._atoms[n].is_radical]
+    return idx or None
+
+
+def access_history_case(ck, name, m, kind, call, access):
+    """one fresh copy, one first access, then everything a user can ask for. returns True when a violation was reported"""
+    c = m.copy()
+    d = m.copy()
+    try:
+        access(c)
+        got = {'str': str(c), 'format': format(c, ''), 'order': tuple(c.smiles_atoms_order), 'hash_is_hash_of_str': hash(c) == hash(str(c))}
+        strings, order = d._smiles(d._smiles_order(), _return_order=True)      # no cache involved
+    except Exception as e:
+        ck.unchecked(f'access history {kind}: raised', f'{name}: {type(e).__name__}: {e}', [name])
+        return False
+    ck.case(('access-history', name, kind), nontrivial=len(m) > 2)
+    ck.count('access-history:first=' + kind)
+    idx = cx_block_expected(d, order)
+    exp_text = ''.join(strings) + ('' if idx is None else ' |^1:' + ','.join(map(str, idx)) + '|')
+    exp = {'str': exp_text, 'format': exp_text, 'order': tuple(order), 'hash_is_hash_of_str': True}
+    if idx is not None:
+        ck.count('access-history:radical')
+    if got == exp:
+        return False
+    src = name.split('#')[0]
+    ck.counterexample(f'access-history:{kind}:{name}',
+                      f'after {call} as the first access, the cached canonical string / order differ from an uncached run of the writer: ' +
+                      '; '.join(f'{q}: {got[q]!r} instead of {exp[q]!r}' for q in got if got[q] != exp[q]),
+                      {'molecule': name, 'history': ['m = fresh copy', call, 'str(m); format(m, ""); m.smiles_atoms_order; hash(m)']},
+                      got, exp, "the list of strings of an uncached _smiles run joined, plus the radical block '|^1:<written positions of the radical "
+                      "atoms>|' written out from its definition",
+                      replay_py=f"from chython import smiles\nm = smiles({src!r})\n{call}\nprint(repr(str(m)), m.smiles_atoms_order)\n"
+                                f"w = smiles({src!r})\nprint(repr(str(w)), w.smiles_atoms_order)")
+    return True
+
+
+def search_access_history(ck, mols, limit):
+    rng = random.Random(f'{ck.seed}:c02access')
+    found = 0
+    rad = [x for x in mols if x[1].is_radical and '#' not in x[0]]
+    other = [x for x in mols if not x[1].is_radical and not x[0].startswith('api:history')]
+    for name, m in rad:
+        bad = False
+        for kind, call, access in ACCESS:
+            bad = access_history_case(ck, name, m, kind, call, access) or bad
+        found += bad
+        # and the molecule as the history leaves it goes through the round trip: the radical flags must come back
+        if not bad:
+            c = m.copy()
+            c.smiles_atoms_order   # noqa: B018
+            found += roundtrip(ck, name, c, '', 0)
+    for name, m in rng.sample(other, min(limit, len(other))):
+        for kind, call, access in rng.sample(ACCESS[:5], 2):
+            found += access_history_case(ck, name, m, kind, call, access)
+    return found
+
+
 def search(ck, mols):
     quick = ck.tier == 'quick'
     rng = random.Random(f'{ck.seed}:c02search')
+    # the macrocyclic polyenes have their own search (RDKit reference from the input spelling, not from the canonical string)
+    mols = [x for x in mols if x[0].split('#')[0] not in MACRO_SET]
     rest = [x for x in mols if x[0] not in SPECIAL_SET]
     sub = mols if not quick else ([x for x in mols if x[0] in SPECIAL_SET or x[0].startswith('api:')] + rng.sample(rest, min(110, len(rest))))
     found = search_roundtrip(ck, sub, n_random=3 if quick else 5, full=not quick)
     found += search_ring_stereo(ck, 45 if quick else 600, 10 if quick else 25)
     found += search_forced_labels(ck, mols, 250 if quick else 2000)
     found += search_label_history(ck, mols, 25 if quick else 300)
+    found += search_access_history(ck, mols, 40 if quick else 400)
+    found += search_macro_polyenes(ck)
     stereo_mols = [x for x in mols if sum(n_labels(x[1])) > 0 and '#' not in x[0]]
     found += search_stereoisomers(ck, stereo_mols if not quick else stereo_mols[:90], max_labels=5 if quick else 8)
     found += search_small_graphs(ck, 4 if quick else 5, DECOR[:5] if quick else DECOR, 3 if quick else 4)
@@ -1554,13 +1807,15 @@ def directed_search(ck, bad_writer, bad_reader, mols):
 
 
 def run(ck):
-    ck.trusted += ['translators tools/gen_smiles_tables.py, tools/gen_smiles_more.py (Python ast: charge_str, organic_set, B C N P S, heap bounds, _format_closure body, '
+    ck.trusted += ['translators tools/gen_ctmap.py (body of MoleculeSmiles.__ct_map, statement by statement), tools/gen_smiles_entry.py (bodies of Smiles.__str__, smiles_atoms_order, __format__), tools/gen_format_atom.py (_format_atom after the stereo block), tools/gen_smiles_tables.py, tools/gen_smiles_more.py (Python ast: charge_str, organic_set, B C N P S, heap bounds, _format_closure body, '
                    'replace_dict, charge_dict, character classes of _tokenize, aromatic symbols and atom_re text), tools/gen_elements.py, tools/gen_stereo.py',
                    'correspondence runner harness/checks/C02.py + harness/coqcases.py + harness/coqmol.py',
                    'CachedMethods shim harness/boot.py', 'CPython 3.12.1', 'RDKit 2026.3 (search only)']
     ck.assumptions += [
         'coq/model/Writer.v is a hand-written restatement of Smiles._smiles / _format_atom / _format_bond / __ct_map / _format_cxsmiles and of '
-        '_tokenize / _atom_parse; the tie is the correspondence of this check (list of written strings, atom order, final text)',
+        '_tokenize / _atom_parse; the tie is the correspondence of this check (list of written strings, atom order, final text); since round 4 '
+        '__ct_map, _format_atom after its stereo block and the entry points __str__ / smiles_atoms_order / __format__ are ALSO translated from '
+        'the source on every run and proved equal to the hand-written definitions (C02_*_generated)',
         'inputs of the model rather than modelled: the weights (_chiral_morgan / atoms_order values are taken from the implementation), CPython set '
         'iteration order (replaced by the observed written order as tie-break), the stereo registries (stereogenic_* / _stereo_* dictionaries)',
         'the parser / create_molecule / postprocess_molecule side of the round trip is not modelled here (C03 models the reader): the round trip as a whole '
@@ -1581,7 +1836,7 @@ def run(ck):
     import time
     tm = {}
     t0 = time.time()
-    proved = common.standard_proof_steps(ck, translators=['smiles_tables', 'smiles_more', 'elements', 'stereo'])
+    proved = common.standard_proof_steps(ck, translators=['smiles_tables', 'smiles_more', 'smiles_entry', 'ctmap', 'format_atom', 'elements', 'stereo'])
     tm['proof_steps'] = round(time.time() - t0, 1)
     t0 = time.time()
     mols = pool(ck)
